@@ -280,16 +280,39 @@ def x1_x3(ctx):
                                 tv = sx.strip_ref(text)
                                 if sx.is_path(tv) and tv['p'] in ids and ids.index(tv['p']) < ids.index(origin['p']):
                                     enclosing_ok = src['f']['p']
+                            # the same binding written as a match arm: `match resolver(..) { Ok(Some((text, origin, ..))) => .. }`
+                        if n.get('k') == 'match':
+                            src = n['e']
+                            if src.get('k') == 'try':
+                                src = src['e']
+                            if sx.is_path(src):
+                                # `let resolved = resolver(..); match resolved {..}`: bound exactly once in the arm
+                                lets_ = [z for ss2, _ in chain for z in ss2 if z.get('k') == 'let' and z['pat'].get('k') == 'ident' and z['pat']['n'] == src['p'] and 'init' in z]
+                                if len(lets_) == 1:
+                                    src = lets_[0]['init']
+                            if sx.is_call(src) and src['f']['p'] in pp.fns:
+                                for arm_ in n['arms']:
+                                    ids = [x for x in sx.pat_idents(arm_['pat'])]
+                                    tv = sx.strip_ref(text)
+                                    if origin['p'] in ids and sx.is_path(tv) and tv['p'] in ids and ids.index(tv['p']) < ids.index(origin['p']) \
+                                            and any(z is call for z in sx.walk(arm_['body'])):
+                                        enclosing_ok = src['f']['p']
                 st_o, _ = resolve_let(chain, stmts, i, origin['p'])
+                rebound = False
                 if st_o is not None:
                     # re-bound by a `let` between the resolver call and the push: no longer the resolver's value
                     enclosing_ok = False
+                    rebound = True
                 st_t2, _ = resolve_let(chain, stmts, i, sx.strip_ref(text)['p']) if sx.is_path(sx.strip_ref(text)) else (None, None)
                 if st_t2 is not None:
                     enclosing_ok = False
-                if not enclosing_ok:
+                    rebound = True
+                if not enclosing_ok and rebound:
                     r3.fail(key + ':origin-source', pp.where(call.get('l')),
                             '%s: pushes `%s` with origin variable `%s` that is not the (text, origin, ..) pair returned by the macro resolver' % (akey, sx.render(text), origin['p']))
+                elif not enclosing_ok:
+                    r3.undecided(key + ':origin-source', pp.where(call.get('l')),
+                                 '%s: pushes `%s` with origin variable `%s`; how that variable is bound from the macro resolver\'s result is not recognised' % (akey, sx.render(text), origin['p']))
                 else:
                     # the resolver returns the definition's DefineText.origin
                     rf = pp.fns[enclosing_ok]
